@@ -10,6 +10,13 @@ kinds:  flip     if C: A else: B          ->  if not C: B else: A               
         ifexp    x = A if C else B        ->  if C: x = A else: x = B                    (statement level, one name target)
         unifexp  if C: x = A else: x = B  ->  x = A if C else B                          (both branches one assignment to one name)
         rename   every local v            ->  v_rn                                       (see renametest.py)
+        comp2loop / loop2comp   x = [E for v in it if c]  <->  x = []; for v in it: if c: x.append(E)
+        unelse / addelse   if C: ..; return  else: B  <->  if C: ..; return   B
+        earlyexit  trailing `if C: A` of a loop / function body  ->  `if not C: continue / return`; A
+        nestand / andnest   if A and B: X  <->  if A: if B: X
+        demorgan   not (a and b) <-> not a or not b
+        tmpexpr    f(a + 1), x[i - 1]     ->  _e = a + 1; f(_e)                          (call-free arithmetic operands)
+        rangeoff   for i in range(a, b)   ->  for i_0 in range(b - a): i = i_0 + a
 """
 import ast
 import copy
@@ -117,15 +124,275 @@ class IfExpUnlift(ast.NodeTransformer):
         return node
 
 
-KINDS = {'flip': Flip, 'orient': Orient, 'tmptest': TmpTest, 'ifexp': IfExpLift, 'unifexp': IfExpUnlift}
+def _stored_names(fn):
+    return {n.id for n in ast.walk(fn) if isinstance(n, ast.Name) and isinstance(n.ctx, (ast.Store, ast.Del))} | \
+        {a.arg for f in ast.walk(fn) if isinstance(f, (ast.FunctionDef, ast.AsyncFunctionDef, ast.Lambda)) for a in f.args.args + f.args.kwonlyargs + f.args.posonlyargs}
+
+
+class _BlockRewriter(ast.NodeTransformer):
+    """base: rewrite statement lists (body / orelse / finalbody / handlers) through self.block(stmts, owner, field)"""
+    n = 0
+
+    def generic_visit(self, node):
+        super().generic_visit(node)
+        for f in ('body', 'orelse', 'finalbody'):
+            b = getattr(node, f, None)
+            if isinstance(b, list) and b and isinstance(b[0], ast.stmt):
+                setattr(node, f, self.block(b, node, f))
+        return node
+
+    def visit_Lambda(self, node):
+        return node
+
+
+class Comp2Loop(_BlockRewriter):
+    """x = [E for v in it if c]  ->  x = []; for v in it: if c: x.append(E)     (one generator; v not otherwise bound in the function)"""
+
+    def __init__(self, fn):
+        self.fn = fn
+        self.counts = {}
+        for n in ast.walk(fn):
+            if isinstance(n, ast.Name) and isinstance(n.ctx, ast.Store):
+                self.counts[n.id] = self.counts.get(n.id, 0) + 1
+        self.params = {a.arg for f in ast.walk(fn) if isinstance(f, (ast.FunctionDef, ast.AsyncFunctionDef, ast.Lambda))
+                       for a in f.args.args + f.args.kwonlyargs + f.args.posonlyargs}
+
+    def block(self, stmts, owner, field):
+        out = []
+        for s in stmts:
+            if isinstance(s, ast.Assign) and len(s.targets) == 1 and isinstance(s.targets[0], ast.Name) and isinstance(s.value, ast.ListComp) \
+                    and len(s.value.generators) == 1 and not s.value.generators[0].is_async:
+                g = s.value.generators[0]
+                x = s.targets[0].id
+                tv = [n.id for n in ast.walk(g.target) if isinstance(n, ast.Name)]
+                inner = [n for n in ast.walk(s.value) if isinstance(n, (ast.ListComp, ast.GeneratorExp, ast.SetComp, ast.DictComp, ast.Lambda, ast.Await, ast.NamedExpr))]
+                uses_x = any(isinstance(n, ast.Name) and n.id == x for n in ast.walk(s.value))
+                if len(inner) == 1 and not uses_x:
+                    self.n += 1
+                    # the loop variable of a `for` statement is visible afterwards, that of a comprehension is not: use fresh names
+                    ren = {v: f'{v}_c{self.n}' for v in tv}
+
+                    class Rn(ast.NodeTransformer):
+                        def visit_Name(self, n):
+                            return ast.copy_location(ast.Name(id=ren.get(n.id, n.id), ctx=n.ctx), n)
+                    it = g.iter
+                    g = ast.comprehension(target=Rn().visit(g.target), iter=it, ifs=[Rn().visit(c) for c in g.ifs], is_async=0)
+                    s = ast.copy_location(ast.Assign(targets=s.targets, value=ast.ListComp(elt=Rn().visit(s.value.elt), generators=[g])), s)
+                    app = ast.Expr(value=ast.Call(func=ast.Attribute(value=ast.Name(id=x, ctx=ast.Load()), attr='append', ctx=ast.Load()), args=[s.value.elt], keywords=[]))
+                    body = [app]
+                    for c in reversed(g.ifs):
+                        body = [ast.If(test=c, body=body, orelse=[])]
+                    out.append(ast.copy_location(ast.Assign(targets=[ast.Name(id=x, ctx=ast.Store())], value=ast.List(elts=[], ctx=ast.Load())), s))
+                    out.append(ast.copy_location(ast.For(target=g.target, iter=g.iter, body=body, orelse=[]), s))
+                    continue
+            out.append(s)
+        return out
+
+
+class Loop2Comp(_BlockRewriter):
+    """x = []; for v in it: [if c:] x.append(E)   ->   x = [E for v in it if c]      (v not used after the loop)"""
+
+    def __init__(self, fn):
+        self.fn = fn
+
+    def block(self, stmts, owner, field):
+        out = []
+        i = 0
+        while i < len(stmts):
+            s = stmts[i]
+            nx = stmts[i + 1] if i + 1 < len(stmts) else None
+            if isinstance(s, ast.Assign) and len(s.targets) == 1 and isinstance(s.targets[0], ast.Name) and isinstance(s.value, ast.List) and not s.value.elts \
+                    and isinstance(nx, ast.For) and not nx.orelse and len(nx.body) == 1:
+                x = s.targets[0].id
+                b, ifs = nx.body[0], []
+                while isinstance(b, ast.If) and not b.orelse and len(b.body) == 1:
+                    ifs.append(b.test)
+                    b = b.body[0]
+                tv = {n.id for n in ast.walk(nx.target) if isinstance(n, ast.Name)}
+                if isinstance(b, ast.Expr) and isinstance(b.value, ast.Call) and isinstance(b.value.func, ast.Attribute) and b.value.func.attr == 'append' \
+                        and isinstance(b.value.func.value, ast.Name) and b.value.func.value.id == x and len(b.value.args) == 1 \
+                        and not any(isinstance(n, (ast.Await, ast.NamedExpr, ast.Yield)) for n in ast.walk(nx)) \
+                        and not any(isinstance(n, ast.Name) and n.id == x for e in [b.value.args[0], nx.iter] + ifs for n in ast.walk(e)) \
+                        and not any(isinstance(n, ast.Name) and n.id in tv and not any(n is y for y in ast.walk(nx)) for n in ast.walk(self.fn)):
+                    self.n += 1
+                    comp = ast.ListComp(elt=b.value.args[0], generators=[ast.comprehension(target=nx.target, iter=nx.iter, ifs=ifs, is_async=0)])
+                    out.append(ast.copy_location(ast.Assign(targets=[ast.Name(id=x, ctx=ast.Store())], value=comp), s))
+                    i += 2
+                    continue
+            out.append(s)
+            i += 1
+        return out
+
+
+class UnElse(_BlockRewriter):
+    """if C: ...; return/raise/continue/break  else: B   ->   if C: ...; return   B"""
+
+    def block(self, stmts, owner, field):
+        out = []
+        for s in stmts:
+            if isinstance(s, ast.If) and s.orelse and s.body and isinstance(s.body[-1], (ast.Return, ast.Raise, ast.Continue, ast.Break)):
+                self.n += 1
+                out.append(ast.copy_location(ast.If(test=s.test, body=s.body, orelse=[]), s))
+                out.extend(s.orelse)
+            else:
+                out.append(s)
+        return out
+
+
+class AddElse(_BlockRewriter):
+    """if C: ...; return/raise/continue/break   B   ->   if C: ...; return  else: B"""
+
+    def block(self, stmts, owner, field):
+        for k, s in enumerate(stmts):
+            if isinstance(s, ast.If) and not s.orelse and s.body and isinstance(s.body[-1], (ast.Return, ast.Raise, ast.Continue, ast.Break)) and stmts[k + 1:] \
+                    and not any(isinstance(x, (ast.FunctionDef, ast.AsyncFunctionDef, ast.ClassDef)) for x in stmts[k + 1:]):
+                self.n += 1
+                return stmts[:k] + [ast.copy_location(ast.If(test=s.test, body=s.body, orelse=stmts[k + 1:]), s)]
+        return stmts
+
+
+class EarlyExit(_BlockRewriter):
+    """last statement of a loop body `if C: A` (no else)  ->  `if not C: continue; A`; of a function body -> `if not C: return; A`"""
+
+    def block(self, stmts, owner, field):
+        if field == 'body' and isinstance(owner, (ast.For, ast.While, ast.FunctionDef, ast.AsyncFunctionDef)) and stmts:
+            s = stmts[-1]
+            is_fn = isinstance(owner, (ast.FunctionDef, ast.AsyncFunctionDef))
+            if isinstance(s, ast.If) and not s.orelse and not (is_fn and any(isinstance(n, (ast.Yield, ast.YieldFrom)) for n in ast.walk(owner))) \
+                    and not (isinstance(owner, (ast.For, ast.While)) and owner.orelse):
+                self.n += 1
+                t = s.test
+                nt = t.operand if isinstance(t, ast.UnaryOp) and isinstance(t.op, ast.Not) else ast.UnaryOp(op=ast.Not(), operand=t)
+                ex = ast.Return(value=None) if is_fn else ast.Continue()
+                return stmts[:-1] + [ast.copy_location(ast.If(test=nt, body=[ex], orelse=[]), s)] + s.body
+        return stmts
+
+
+class NestAnd(_BlockRewriter):
+    """if A and B: X  (no else)  ->  if A: if B: X"""
+
+    def block(self, stmts, owner, field):
+        out = []
+        for s in stmts:
+            if isinstance(s, ast.If) and not s.orelse and isinstance(s.test, ast.BoolOp) and isinstance(s.test.op, ast.And) and not (
+                    field == 'orelse' and isinstance(owner, ast.If) and len(stmts) == 1):
+                self.n += 1
+                vs = s.test.values
+                inner = ast.If(test=vs[-1] if len(vs) == 2 else ast.BoolOp(op=ast.And(), values=vs[1:]), body=s.body, orelse=[])
+                out.append(ast.copy_location(ast.If(test=vs[0], body=[inner], orelse=[]), s))
+            else:
+                out.append(s)
+        return out
+
+
+class AndNest(_BlockRewriter):
+    """if A: if B: X  (no else on either)  ->  if A and B: X"""
+
+    def block(self, stmts, owner, field):
+        out = []
+        for s in stmts:
+            if isinstance(s, ast.If) and not s.orelse and len(s.body) == 1 and isinstance(s.body[0], ast.If) and not s.body[0].orelse \
+                    and not any(isinstance(n, ast.NamedExpr) for n in ast.walk(s.test)):
+                self.n += 1
+                out.append(ast.copy_location(ast.If(test=ast.BoolOp(op=ast.And(), values=[s.test, s.body[0].test]), body=s.body[0].body, orelse=[]), s))
+            else:
+                out.append(s)
+        return out
+
+
+class DeMorgan(ast.NodeTransformer):
+    """not (a and b) -> not a or not b;  not (a or b) -> not a and not b;  and the converse for `not a or not b`"""
+    n = 0
+
+    def visit_UnaryOp(self, node):
+        self.generic_visit(node)
+        if isinstance(node.op, ast.Not) and isinstance(node.operand, ast.BoolOp):
+            self.n += 1
+            b = node.operand
+            neg = [v.operand if isinstance(v, ast.UnaryOp) and isinstance(v.op, ast.Not) else ast.UnaryOp(op=ast.Not(), operand=v) for v in b.values]
+            return ast.copy_location(ast.BoolOp(op=ast.Or() if isinstance(b.op, ast.And) else ast.And(), values=neg), node)
+        return node
+
+    def visit_BoolOp(self, node):
+        self.generic_visit(node)
+        if all(isinstance(v, ast.UnaryOp) and isinstance(v.op, ast.Not) for v in node.values):
+            self.n += 1
+            inner = ast.BoolOp(op=ast.Or() if isinstance(node.op, ast.And) else ast.And(), values=[v.operand for v in node.values])
+            return ast.copy_location(ast.UnaryOp(op=ast.Not(), operand=inner), node)
+        return node
+
+
+class TmpExpr(_BlockRewriter):
+    """hoist call-free arithmetic arguments / subscripts of simple statements into temporaries evaluated just before the statement"""
+
+    def block(self, stmts, owner, field):
+        out = []
+        for s in stmts:
+            if isinstance(s, (ast.Assign, ast.Expr, ast.Return, ast.AugAssign)) and s.value is not None \
+                    and not any(isinstance(n, (ast.NamedExpr, ast.Await, ast.Yield, ast.YieldFrom, ast.Lambda, ast.ListComp, ast.SetComp, ast.DictComp, ast.GeneratorExp,
+                                               ast.IfExp, ast.BoolOp)) for n in ast.walk(s.value)):
+                # candidates: BinOp nodes that are direct call arguments or subscript indices, made of names / constants / attributes only
+                cands = []
+                for n in ast.walk(s.value):
+                    subs = list(n.args) if isinstance(n, ast.Call) else ([n.slice] if isinstance(n, ast.Subscript) and isinstance(n.ctx, ast.Load) else [])
+                    for a in subs:
+                        if isinstance(a, ast.BinOp) and all(isinstance(y, (ast.BinOp, ast.Name, ast.Constant, ast.Attribute, ast.operator, ast.expr_context, ast.UnaryOp, ast.unaryop))
+                                                            for y in ast.walk(a)):
+                            cands.append(a)
+                # evaluation order: only when nothing before the candidate in the statement is a call (a call could change what it reads)
+                calls_before = False
+                if cands:
+                    a = cands[0]
+                    order = list(ast.walk(s.value))
+                    # conservative: the statement's value must contain exactly one call, the one the candidate is an argument of (or none)
+                    ncalls = sum(isinstance(n, ast.Call) for n in order)
+                    if ncalls <= 1:
+                        self.n += 1
+                        nm = f'_e{self.n}'
+                        out.append(ast.copy_location(ast.Assign(targets=[ast.Name(id=nm, ctx=ast.Store())], value=a), s))
+
+                        class R(ast.NodeTransformer):
+                            def visit(self, n):
+                                if n is a:
+                                    return ast.Name(id=nm, ctx=ast.Load())
+                                return super().visit(n)
+                        s.value = R().visit(s.value)
+            out.append(s)
+        return out
+
+
+class RangeOffset(ast.NodeTransformer):
+    """for i in range(a, b): B   ->   for i_0 in range(b - a): i = i_0 + a; B          (i not assigned in B)"""
+    n = 0
+
+    def visit_For(self, node):
+        self.generic_visit(node)
+        it = node.iter
+        if isinstance(it, ast.Call) and isinstance(it.func, ast.Name) and it.func.id == 'range' and len(it.args) == 2 and isinstance(node.target, ast.Name) \
+                and not any(isinstance(n, ast.Name) and n.id == node.target.id and isinstance(n.ctx, ast.Store) for b in node.body for n in ast.walk(b)) \
+                and not any(isinstance(n, (ast.Call, ast.Await)) for a in it.args for n in ast.walk(a)):
+            self.n += 1
+            i = node.target.id
+            a, b = it.args
+            new_it = ast.Call(func=ast.Name(id='range', ctx=ast.Load()), args=[ast.BinOp(left=b, op=ast.Sub(), right=a)], keywords=[])
+            first = ast.Assign(targets=[ast.Name(id=i, ctx=ast.Store())], value=ast.BinOp(left=ast.Name(id=i + '_0', ctx=ast.Load()), op=ast.Add(), right=a))
+            return ast.copy_location(ast.For(target=ast.Name(id=i + '_0', ctx=ast.Store()), iter=new_it, body=[first] + node.body, orelse=node.orelse), node)
+        return node
+
+
+KINDS = {'flip': Flip, 'orient': Orient, 'tmptest': TmpTest, 'ifexp': IfExpLift, 'unifexp': IfExpUnlift,
+         'comp2loop': Comp2Loop, 'loop2comp': Loop2Comp, 'unelse': UnElse, 'addelse': AddElse, 'earlyexit': EarlyExit, 'nestand': NestAnd, 'andnest': AndNest,
+         'demorgan': DeMorgan, 'tmpexpr': TmpExpr, 'rangeoff': RangeOffset}
+NEEDS_FN = ('comp2loop', 'loop2comp')
 
 
 def rewrite(src, fn, kind):
     """module source with function fn rewritten by the transformer of `kind` (the function is re-printed by ast.unparse)"""
     if kind == 'rename':
         return rename_locals(src, fn)
-    tr = KINDS[kind]()
-    new = tr.visit(copy.deepcopy(fn))
+    fn = copy.deepcopy(fn)
+    tr = KINDS[kind](fn) if kind in NEEDS_FN else KINDS[kind]()
+    new = tr.visit(fn)
     if not tr.n:
         return None
     ast.fix_missing_locations(new)
